@@ -39,8 +39,8 @@ IdsNonNull(ds) == \A r \in ds.rows : \A i \in IdsOf(ds) : ~IsNull(r[i])
 KeysUnique(ds) == \A r1, r2 \in ds.rows : Rst(r1, IdsOf(ds)) = Rst(r2, IdsOf(ds)) => r1 = r2
 AtMostOneRowWithoutIds(ds) == IdsOf(ds) = {} => Cardinality(ds.rows) <= 1
 TagOfType(t) == CASE t = "Integer" -> {1} [] t = "Number" -> {1, 2, 11, 12} [] t = "Boolean" -> {3}
-                  [] t = "String" -> {4} [] t = "Date" -> {5} [] t = "Time_Period" -> {6}
-                  [] t = "Time" -> {7} [] t = "Duration" -> {8} [] OTHER -> {0}
+                  [] t = "String" -> {4} [] t = "Date" -> {5} [] t = "Time_Period" -> {6, 13}
+                  [] t = "Time" -> {7, 13} [] t = "Duration" -> {8, 13} [] OTHER -> {0}
 ValuesTyped(ds) == \A r \in ds.rows : \A c \in ds.comps : IsNull(r[c.n]) \/ IsUndet(r[c.n]) \/ r[c.n][1] \in TagOfType(c.t)
 RowsShaped(ds) == \A r \in ds.rows : DOMAIN r = AllNames(ds)
 WellFormed(ds) == RowsShaped(ds) /\ IdsNonNull(ds) /\ KeysUnique(ds) /\ AtMostOneRowWithoutIds(ds) /\ ValuesTyped(ds)
